@@ -188,7 +188,8 @@ def _run_task(arg):
         return out
     except Exception as e:
         from .sx import OutsideSubset
-        kind = 'outside-subset' if isinstance(e, (OutsideSubset, intake.IntakeError)) else 'crash'
+        from .cx import Unsupported
+        kind = 'outside-subset' if isinstance(e, (OutsideSubset, intake.IntakeError, Unsupported)) else 'crash'
         return dict(results=[], functions={}, trusted=[], task=f'{modname}.{fname}{kwargs or ""}',
                     error=f'{type(e).__name__}: {e}', error_kind=kind, tb=traceback.format_exc()[-1500:],
                     wall=round(time.time() - t0, 2))
@@ -247,7 +248,8 @@ def run_property(prop, tasks, tier, seed, level_text, assumptions, update_ledger
     for mid in missing:
         undec.append(dict(id=mid, reason='obligation in ledger was not generated from the current source (contract no longer lines up)'))
     # -------- violations
-    os.makedirs(os.path.join(ROOT, 'replays'), exist_ok=True)
+    OUT = os.environ.get('VERIF_OUT') or ROOT       # development runs on scratch copies keep evidence/replays out of the tree
+    os.makedirs(os.path.join(OUT, 'replays'), exist_ok=True)
     viol = []
     known_hits = []
     bad = [r for r in results if (r['kind'] == 'vc' and r['status'] == 'refuted')
@@ -259,7 +261,7 @@ def run_property(prop, tasks, tier, seed, level_text, assumptions, update_ledger
             known_hits.append((kf[0], r))
             lines.append(f"KNOWN-FINDING: property={prop} {kf[0]['what']}")
             continue
-        path = os.path.join(ROOT, 'replays', r['id'].replace('/', '__') + '.json')
+        path = os.path.join(OUT, 'replays', r['id'].replace('/', '__') + '.json')
         rep = r.get('replay') or {}
         with open(path, 'w') as f:
             json.dump(dict(property=prop, obligation=r['id'], kind=r['kind'], solver_output=r,
@@ -319,8 +321,8 @@ def run_property(prop, tasks, tier, seed, level_text, assumptions, update_ledger
         wall_s=round(time.time() - t0, 2),
         violations=len(viol),
     )
-    os.makedirs(os.path.join(ROOT, 'evidence'), exist_ok=True)
-    with open(os.path.join(ROOT, 'evidence', f'{prop}.json'), 'w') as f:
+    os.makedirs(os.path.join(OUT, 'evidence'), exist_ok=True)
+    with open(os.path.join(OUT, 'evidence', f'{prop}.json'), 'w') as f:
         json.dump(ev, f, indent=1, default=str)
     # -------- report
     print(f'[{prop}] tier={tier} obligations={len(vcs)} discharged={len(proved)} '
